@@ -29,6 +29,8 @@ structure DSt where
   checksAfterStore : Bool := true
   latePending : Option (String × String × String) := none
   lateSubs : List Nat := []
+  /-- mode drain: parked requests (name, kind, key, value) -/
+  dparked : List (String × String × String × String) := []
 
 def showVal : Val → String
   | .str s => "s." ++ s
@@ -93,12 +95,40 @@ def concState (d : DSt) (ths : List Thread) : String × Nat :=
 def step (d : DSt) (line : String) : DSt × String :=
   match words line with
   | ["case", _, mode] =>
-    ({ d with mode := mode, m := St.init, sp := Spec.init, ths := [], metaKeys := [], latePending := none, lateSubs := [] }, line)
+    ({ d with mode := mode, m := St.init, sp := Spec.init, ths := [], metaKeys := [], latePending := none, lateSubs := [], dparked := [] }, line)
   | ["case", _, mode, _] =>
-    ({ d with mode := mode, m := St.init, sp := Spec.init, ths := [], metaKeys := [], latePending := none, lateSubs := [] }, line)
+    ({ d with mode := mode, m := St.init, sp := Spec.init, ths := [], metaKeys := [], latePending := none, lateSubs := [], dparked := [] }, line)
   | ["case", _] => ({ d with mode := "", m := St.init, sp := Spec.init, ths := [], metaKeys := [] }, line)
   | ws =>
-    if d.mode == "late" then
+    if d.mode == "drain" then
+      match ws with
+      | ["sub", i] => match i.toNat? with
+        | some n => let r := seqReply d (.sub n); (r.1, "ok")
+        | none => (d, "bad-op")
+      | ["set", k, v] => seqReply d (.set k (.str v))
+      | ["spawn", t, "set", k, v] =>
+        -- parks holding its vigil, nothing written yet
+        let body := (sortNat d.m.subs).foldl (fun acc i => acc ++ s!" s{i}=[]") ""
+        ({ d with dparked := d.dparked ++ [(t, "set", k, v)] }, s!"{t}@gw.set.vigil{body}")
+      | ["spawn", t, "del", k] =>
+        -- deletes the (last) record, then Destroy starts draining the in-flight requests
+        let (d1, r) := seqReply d (.del k)
+        let body := (r.splitOn " ").drop 1
+        let (d2, _) := seqReply d1 (.drain true)
+        ({ d2 with dparked := d2.dparked ++ [(t, "del", k, "")] }, s!"{t}@destroy.draining" ++ (if body.isEmpty then "" else " " ++ " ".intercalate body))
+      | ["go", t] =>
+        match d.dparked.find? (fun e => e.1 == t) with
+        | some (_, "set", k, v) =>
+          let (d1, r) := seqReply { d with dparked := d.dparked.filter (fun e => e.1 != t) } (.set k (.str v))
+          let dropped := d.m.draining && !d.cfg.sendsDuringDrain && !d.m.subs.isEmpty
+          (d1, s!"{t} done {r}" ++ (if dropped then "\t#F:C19-event-dropped-during-destroy-drain" else ""))
+        | some (_, "del", _, _) =>
+          let (d1, _) := seqReply { d with dparked := d.dparked.filter (fun e => e.1 != t) } (.drain false)
+          let body := (sortNat d.m.subs).foldl (fun acc i => acc ++ s!" s{i}=[]") ""
+          (d1, s!"{t} done st=DELETED{body}")
+        | _ => (d, "bad-op")
+      | _ => (d, "bad-op")
+    else if d.mode == "late" then
       match ws with
       | ["sub", i] => match i.toNat? with
         | some n => let r := seqReply d (.sub n); (r.1, "ok")
@@ -130,6 +160,8 @@ def step (d : DSt) (line : String) : DSt × String :=
         | none => (d, "bad-op")
       | ["set", k, v] => seqReply d (.set k (.str v))
       | ["setm", k, v] => seqReply d (.set k (.str v)) true
+      | ["sete", k, v] => seqReply d (.set k (.str v))
+      | ["shifte", k] => seqReply d (.shift k)
       | ["inc", k, n] => match n.toInt? with
         | some i => seqReply d (.inc k i)
         | none => (d, "bad-op")
@@ -172,7 +204,8 @@ def run (args : List String) : IO UInt32 := do
   let tc : TimeConv := match arg kv "timeConv" with
     | "unixSec" => .unixSec | "unixNano" => .unixNano | "unixSplit" => .unixSplit | _ => .unknown
   let cfg : Cfg := { resetsChangedFlags := arg kv "resetsChangedFlags" == "yes",
-                     oldIsLive := arg kv "oldIsLive" != "no" }
+                     oldIsLive := arg kv "oldIsLive" != "no",
+                     sendsDuringDrain := arg kv "stopsSendingAfterDrain" != "no" }
   lineLoop step { cfg := cfg, timeConv := tc, mutex := arg kv "sendUnderMutex" == "yes", mode := "",
                   m := St.init, sp := Spec.init, ths := [], stampFromClock := arg kv "eventTimeFromClock" != "no",
                   checksAfterStore := arg kv "checksSubscribersAfterStore" != "no" }
